@@ -45,8 +45,8 @@ OrdOK(r) ==
     /\ r.hash = r.shash
     /\ Len(r.hash) >= 2 /\ r.hash[1] = 1 /\ r.hash[2] = Len(r.a)
     /\ r.found_hash = (r.a = r.b) /\ r.found_btree = (r.a = r.b)
-    \* ... and what the same elements feed as a slice of native values (nested arrays as [[u8; 2]])
-    /\ r.hash = r.nhash
+    \* (r.nhash, the feed of the same elements as native nested arrays, is recorded but not demanded: the property's
+    \*  oracle is the array's own slice, and Hash::hash_slice of an element type may legitimately differ from std's)
     \* the provided methods of Ord follow cmp: max is the second operand unless the first is greater, min the first
     \* unless it is greater (element codes; for the zero-sized nested type every code is -1 on both sides)
     /\ (\A i \in DOMAIN r.max : r.max[i] >= 0) =>
